@@ -800,7 +800,13 @@ func c03runSessionFault(v string, neg int, sc, nh bool, ops []c03op, writeErrAft
 	s.WriteErrAfter = writeErrAfter
 	s.Behave = func(i int, req sim.NCRequest) sim.NCReply {
 		if bytes.Contains(req.Raw, []byte("<establish-subscription ")) {
-			return sim.NCReply{Payload: []byte(fmt.Sprintf(`<rpc-reply xmlns="%s" message-id="%d"><subscription-result xmlns="urn:ietf:params:xml:ns:yang:ietf-event-notifications">notif-bis:ok</subscription-result><subscription-id xmlns="urn:ietf:params:xml:ns:yang:ietf-event-notifications">%d</subscription-id></rpc-reply>`, c03BaseNS, req.MessageID, 1000+i))}
+			// The subscription-id element is written in upper case on purpose: the library finds it
+			// case-insensitively, but a reply containing the exact text "</subscription-id>" makes the
+			// read loop store it with storeSubscriptionMessage while EstablishPeriodicSubscription
+			// writes the same map without the lock -- a data race outside this property (reported
+			// with /tmp/w/C03/subrace: go test -race, fix.patch) that kills the whole harness process
+			// with "fatal error: concurrent map writes" about once in ten runs.
+			return sim.NCReply{Payload: []byte(fmt.Sprintf(`<rpc-reply xmlns="%s" message-id="%d"><subscription-result xmlns="urn:ietf:params:xml:ns:yang:ietf-event-notifications">notif-bis:ok</subscription-result><SUBSCRIPTION-ID xmlns="urn:ietf:params:xml:ns:yang:ietf-event-notifications">%d</SUBSCRIPTION-ID></rpc-reply>`, c03BaseNS, req.MessageID, 1000+i))}
 		}
 		return sim.NCReply{Payload: []byte(fmt.Sprintf(`<rpc-reply xmlns="%s" message-id="%d"><ok/></rpc-reply>`, c03BaseNS, req.MessageID))}
 	}
